@@ -13,7 +13,7 @@ use crate::common::{guarded, last_panic_loc, Run, Tier, Violation};
 use crate::proj::{df_code, obs_get, project, Obs};
 use crate::refdec::{ref_decode, Kind, RefObs, Reject, V};
 
-pub use crate::gen::{all_leaves, contexts, unit_cases, LeafSpec};
+pub use crate::gen::{all_leaves, contexts, unit_cases, unit_cases_tagged, Case, LeafSpec};
 
 #[derive(Default)]
 pub struct Local {
@@ -123,6 +123,14 @@ pub fn run_units<F>(run: &Run, leaves: &[LeafSpec], sweep: bool, pairs: bool, ch
 where
     F: Fn(&[u8], &mut Local) + Sync,
 {
+    run_units_tagged(run, leaves, sweep, pairs, |c: &Case, _base_ok: bool, loc: &mut Local| check(&c.bytes, loc))
+}
+
+/// Same, with the owners of the varied field(s) and whether the unit's base frame decoded.
+pub fn run_units_tagged<F>(run: &Run, leaves: &[LeafSpec], sweep: bool, pairs: bool, check: F) -> E1Stats
+where
+    F: Fn(&Case, bool, &mut Local) + Sync,
+{
     let mut units: Vec<(usize, usize)> = vec![];
     let ctx56 = contexts(7, run.tier, run.seed);
     let ctx112 = contexts(14, run.tier, run.seed);
@@ -138,10 +146,14 @@ where
             let leaf = &leaves[*li];
             let ctx = if leaf.nbits == 56 { &ctx56[*ci].1 } else { &ctx112[*ci].1 };
             // pairs only under the first three contexts; sweeps under all
-            let cases = unit_cases(leaf, ctx, run.tier, sweep, pairs && *ci < 3);
+            let cases = unit_cases_tagged(leaf, ctx, run.tier, sweep, pairs && *ci < 3);
             let mut loc = Local::default();
+            let base_ok = matches!(decode(&cases[0].bytes), Decoded::Ok(_)) || ref_decode(&cases[0].bytes).map_or(true, |r| r.layout.may_reject);
+            if !base_ok {
+                loc.inc("units_with_undecodable_base");
+            }
             for c in &cases {
-                check(c, &mut loc);
+                check(c, base_ok, &mut loc);
             }
             (cases.len() as u64, loc)
         })
@@ -162,37 +174,53 @@ where
 
 /// The generic field oracle used by C04, C06, C08, C09, C10 (and C07 for the raw fields).
 pub fn field_check(bytes: &[u8], props: &[u8], oracle: &str, loc: &mut Local) -> Option<(RefObs, Frame)> {
+    field_check_owned(bytes, (255, 255), true, props, oracle, loc)
+}
+
+/// `owners`: properties owning the field(s) varied to produce this case (255 = attribute to this check).
+/// A decode failure (Err / panic on a frame the reference accepts) is this property's violation only when
+/// one of its own fields was varied and the unit's base frame decodes; otherwise it is C01's / C02's to report.
+pub fn field_check_owned(bytes: &[u8], owners: (u8, u8), base_ok: bool, props: &[u8], oracle: &str, loc: &mut Local) -> Option<(RefObs, Frame)> {
     loc.inc("decodes");
     let r = match ref_decode(bytes) {
         Ok(r) => r,
         Err(_) => return None,
     };
+    let mine = base_ok && (owners.0 == 255 || props.contains(&owners.0) || props.contains(&owners.1));
     match decode(bytes) {
         Decoded::Ok(frame) => {
             loc.inc("accepted");
             if df_code(&frame) != r.layout.df {
-                loc.viol(
-                    oracle,
-                    format!("{}:df", r.layout.leaf),
-                    hex(bytes),
-                    format!("DF{}", r.layout.df),
-                    format!("DF{}", df_code(&frame)),
-                );
+                if mine {
+                    loc.viol(
+                        oracle,
+                        format!("{}:df", r.layout.leaf),
+                        hex(bytes),
+                        format!("DF{}", r.layout.df),
+                        format!("DF{}", df_code(&frame)),
+                    );
+                }
                 return None;
             }
             compare_fields(bytes, &r, &frame, props, loc, oracle);
             Some((r, frame))
         }
         Decoded::Err(e) => {
-            if !r.layout.may_reject {
+            if r.layout.may_reject {
+                loc.inc("permitted_rejections");
+            } else if mine {
                 loc.viol(oracle, format!("{}:rejected", r.layout.leaf), hex(bytes), "Ok(frame)".into(), format!("Err({e})"));
             } else {
-                loc.inc("permitted_rejections");
+                loc.inc("decode_failures_left_to_C01_C02");
             }
             None
         }
         Decoded::Panic(p) => {
-            loc.viol(oracle, format!("{}:panic", r.layout.leaf), hex(bytes), "Ok(frame)".into(), format!("panic: {p}"));
+            if mine {
+                loc.viol(oracle, format!("{}:panic", r.layout.leaf), hex(bytes), "Ok(frame)".into(), format!("panic: {p}"));
+            } else {
+                loc.inc("decode_failures_left_to_C01_C02");
+            }
             None
         }
     }
